@@ -100,65 +100,69 @@ theorem C13_npm_absent_key_witness :
 
 /-- package.json, span level.  For a file whose sections have unique keys, a successful `Write` yields the SAME
 sequence of spans: every span the writer does not address (all bytes between the values: punctuation, white
-space, keys, other members) is in place and untouched, and every value span of the three dependency sections
-holds its entry's value after all updates (`substAll`: the update's new value where key and old value matched,
-the old value otherwise).  Hence the output bytes are the input bytes with exactly those value spans replaced.
-Trusted: `sjson.SetBytes` rewrites only the addressed value span (= `putBack`; compared byte-wise per case). -/
-theorem C13_npm_bytes_partial (f f' : File) (us : List Up) (hwf : WFdoc (docOf f)) (h : writeFile f us = some f')
-    (quote : Str → Str) :
-    f' = f.map (mapSeg (substAll us)) ∧ bytes quote f' = bytes quote (f.map (mapSeg (substAll us))) := by
-  have := writeFile_eq f f' us hwf h
+space, keys, other members) is in place and untouched; a value span of the three dependency sections whose entry
+no update changes keeps ITS BYTES as found in the file (non-canonical escapes included); a span whose entry an
+update changes holds the new value in the writer's rendering.  Hence the output bytes are the input bytes with
+exactly the value spans of the changed entries replaced.
+What this does and does not say (audit-2, finding 7): locating the value spans in the byte string is the scanner of
+gjson/sjson, which is NOT modelled — there is no `tokenize : bytes → File` in Lean, so on the side of the bytes this
+theorem composes the trusted contract "SetBytes on a literal key rewrites that member's value span only" with the
+proved section logic (which entries change, to what); the harness compares the real output bytes with the re-rendered
+file on every generated case. -/
+theorem C13_npm_bytes_partial (quote : Str → Str) (f f' : File) (us : List Up) (hwf : WFdoc (docOf f))
+    (h : writeFile quote f us = some f') :
+    f' = f.map (mapSeg quote (substAll us)) ∧ bytes f' = bytes (f.map (mapSeg quote (substAll us))) := by
+  have := writeFile_eq quote f f' us hwf h
   exact ⟨this, by rw [this]⟩
 
-/-- … in particular a value span no update addresses (by key and old value) keeps its bytes -/
-theorem C13_npm_bytes_untouched_partial (f f' : File) (us : List Up) (hwf : WFdoc (docOf f)) (h : writeFile f us = some f')
-    (hno : ∀ s k v, Seg.val s k v ∈ f → ∀ u ∈ us, ¬ (k = wkey u ∧ v = origVer u)) (quote : Str → Str) :
-    bytes quote f' = bytes quote f := by
-  rw [(C13_npm_bytes_partial f f' us hwf h quote).1]
-  apply bytes_map_raw
-  intro s k v hm
-  have hn := hno s k v hm
-  clear h hwf hno hm
-  unfold substAll
-  induction us with
-  | nil => rfl
-  | cons u us ih =>
-    simp only [List.foldl]
-    have : substEntry u (k, v) = (k, v) := by
-      unfold substEntry
-      have := hn u (by simp)
-      simp [this]
-    rw [this]
-    exact ih (fun w hw => hn w (by simp [hw]))
+/-- … in particular, when no span is addressed (by key and old value) by any update the file is returned as it is -/
+theorem C13_npm_bytes_untouched_partial (quote : Str → Str) (f f' : File) (us : List Up) (hwf : WFdoc (docOf f))
+    (h : writeFile quote f us = some f')
+    (hno : ∀ s k v b, Seg.val s k v b ∈ f → ∀ u ∈ us, ¬ (k = wkey u ∧ v = origVer u)) :
+    f' = f ∧ bytes f' = bytes f := by
+  have e := (C13_npm_bytes_partial quote f f' us hwf h).1
+  have : f.map (mapSeg quote (substAll us)) = f := by
+    apply map_unchanged
+    intro s k v b hm
+    have hn := hno s k v b hm
+    clear h hwf hno hm e
+    unfold substAll
+    induction us with
+    | nil => rfl
+    | cons u us ih =>
+      simp only [List.foldl]
+      have : substEntry u (k, v) = (k, v) := by
+        unfold substEntry
+        have := hn u (by simp)
+        simp [this]
+      rw [this]
+      exact ih (fun w hw => hn w (by simp [hw]))
+  rw [e, this]
+  exact ⟨rfl, rfl⟩
 
-/-- With no updates the bytes written are the bytes read — for every file, no hypothesis. -/
-theorem C13_npm_bytes_identity (f : File) (quote : Str → Str) :
-    writeFile f [] = some f ∧ ∀ f', writeFile f [] = some f' → bytes quote f' = bytes quote f := by
-  have h : writeFile f [] = some f := by
-    unfold writeFile
-    simp only [write]
-    have := putBack_map id f
-    simp only [List.map_id] at this
-    have hid : ∀ g : File, g.map (mapSeg id) = g := by
-      intro g
-      induction g with
-      | nil => rfl
-      | cons x g ih => cases x <;> simp [mapSeg, ih]
-    simp only [docOf]
-    rw [this, hid]
-  refine ⟨h, ?_⟩
-  intro f' hf
-  rw [h] at hf
-  injection hf with hf
-  rw [← hf]
+/-- With no updates the file written is the file read, span for span and byte for byte — for every file, no hypothesis. -/
+theorem C13_npm_bytes_identity (quote : Str → Str) (f : File) : writeFile quote f [] = some f := by
+  unfold writeFile
+  simp only [write]
+  have := putBack_map quote id f
+  simp only [List.map_id] at this
+  have hid : ∀ g : File, g.map (mapSeg quote id) = g := by
+    intro g
+    induction g with
+    | nil => rfl
+    | cons x g ih => cases x <;> simp [mapSeg, setSpan, ih]
+  simp only [docOf]
+  rw [this, hid]
 
-/-- non-vacuity: two spans are rewritten, everything else (incl. the noise section) stays -/
-example : writeFile
-    [.raw "{\"devDependencies\": {\"socket.io\": ".toList, .val .dev "socket.io".toList "^1.0.0".toList, .raw "},\n \"peerDependencies\": {\"socket.io\": \"^1.0.0\"},\n \"dependencies\": {\"socket.io\": ".toList,
-     .val .prod "socket.io".toList "^1.0.0".toList, .raw ", \"x\": ".toList, .val .prod "x".toList "1".toList, .raw "}}".toList]
+/-- non-vacuity: two spans are rewritten, everything else (incl. the noise section and a non-canonically escaped value) stays -/
+example : writeFile (fun v => '"' :: v ++ ['"'])
+    [.raw "{\"devDependencies\": {\"socket.io\": ".toList, .val .dev "socket.io".toList "^1.0.0".toList "\"^1.0.0\"".toList,
+     .raw "},\n \"peerDependencies\": {\"socket.io\": \"^1.0.0\"},\n \"dependencies\": {\"socket.io\": ".toList,
+     .val .prod "socket.io".toList "^1.0.0".toList "\"\\u005e1.0.0\"".toList, .raw ", \"x\": ".toList, .val .prod "x".toList "~1".toList "\"\\u007e1\"".toList, .raw "}}".toList]
     [⟨"socket.io".toList, none, "^1.0.0".toList, "^2.0.0".toList⟩]
-  = some [.raw "{\"devDependencies\": {\"socket.io\": ".toList, .val .dev "socket.io".toList "^2.0.0".toList, .raw "},\n \"peerDependencies\": {\"socket.io\": \"^1.0.0\"},\n \"dependencies\": {\"socket.io\": ".toList,
-     .val .prod "socket.io".toList "^2.0.0".toList, .raw ", \"x\": ".toList, .val .prod "x".toList "1".toList, .raw "}}".toList] := by decide
+  = some [.raw "{\"devDependencies\": {\"socket.io\": ".toList, .val .dev "socket.io".toList "^2.0.0".toList "\"^2.0.0\"".toList,
+     .raw "},\n \"peerDependencies\": {\"socket.io\": \"^1.0.0\"},\n \"dependencies\": {\"socket.io\": ".toList,
+     .val .prod "socket.io".toList "^2.0.0".toList "\"^2.0.0\"".toList, .raw ", \"x\": ".toList, .val .prod "x".toList "~1".toList "\"\\u007e1\"".toList, .raw "}}".toList] := by decide
 
 end Scalibr.Npm
 
@@ -282,6 +286,15 @@ theorem C13_pom_other_profile_witness :
     write pom us = some pom ∧ reqsAfter pom us ≠ some (substitute (requirements pom) us) ∧
     feature pom us = some "C13/pom-property-other-profile" := by
   decide
+
+/-- `VersionFrom` plays no part in the pom.xml writer — neither in the model nor in the Go code it mirrors (`buildPatches`,
+`writeDependency` never look at it; package.json's writer refuses a mismatch).  An update whose old version is not the one
+in the file is written all the same.  Such an update is not "addressed to a requirement present in the file", so it is
+outside the property's quantifier; recorded as a witness and exercised by the stream (wrong-from updates). -/
+theorem C13_pom_ignores_version_from_witness :
+    let pom : Pom := ⟨[⟨[], ['x'], ['y'], [], [], "1.0".toList, false⟩], [], "1.0".toList⟩
+    write pom [⟨"x:y".toList, [], [], [], "0.0.0-wrong".toList, "1.5".toList⟩] =
+      some ⟨[⟨[], ['x'], ['y'], [], [], "1.5".toList, false⟩], [], "1.0".toList⟩ := by decide
 
 /-- the three repaired classes, on the model: white space in a key element (5743d35a), `${project.version}`
 (f5d17448), a repeated placeholder with different values (d4dd80ce) now read back as substituted. -/
